@@ -237,6 +237,33 @@ func (g *gen) balancedOpExpr(d int) string {
 	return "a + b"
 }
 
+// token sequences of the operator grammar (and some broken ones), for the parser alone
+func (g *gen) tokenExpr(d int, out *[]string) {
+	for g.r.Intn(3) == 0 {
+		op := unOps[g.r.Intn(len(unOps))]
+		if g.tmpl && g.r.Intn(4) == 0 {
+			op = "not"
+		}
+		*out = append(*out, op)
+	}
+	if d > 0 && g.r.Intn(4) == 0 {
+		*out = append(*out, "(")
+		g.tokenExpr(d-1, out)
+		*out = append(*out, ")")
+	} else {
+		*out = append(*out, fmt.Sprintf("a%d", g.r.Intn(5)))
+	}
+	for d > 0 && g.r.Intn(5) < 3 {
+		op := binOps[g.r.Intn(len(binOps))]
+		if g.tmpl && g.r.Intn(3) == 0 {
+			op = g.pick("and", "or", "contains", "not contains")
+		}
+		*out = append(*out, op)
+		d--
+		g.tokenExpr(d, out)
+	}
+}
+
 var fixedExprs = []string{
 	"a - -b", "a & ^b", "a &^ b", "- -x", "-(-x)", "&*p", "*&p", "<-<-c", "<-(<-c)", "!(a == b)", "!a == b",
 	"(a * b) + c", "a * (b + c)", "a - (b - c)", "(a - b) - c", "a - b - c", "a / b * c", "a / (b * c)",
@@ -339,6 +366,70 @@ func init() {
 		for i := 0; i < c.N; i++ {
 			g.tmpl = i%3 == 0
 			tryExpr(g.balancedOpExpr(1+g.r.Intn(5)), g.tmpl)
+		}
+		// the parser alone: token sequences of the operator grammar, a tenth of them broken
+		for i := 0; i < c.N; i++ {
+			g.tmpl = i%3 == 0
+			var toks []string
+			g.tokenExpr(1+g.r.Intn(4), &toks)
+			if i%10 == 9 && len(toks) > 1 {
+				j := g.r.Intn(len(toks))
+				switch g.r.Intn(3) {
+				case 0:
+					toks = append(toks[:j], toks[j+1:]...)
+				case 1:
+					toks = append(toks, g.pick(")", "+", "(", "a1"))
+				default:
+					toks[j] = g.pick("(", ")", "*", "a2")
+				}
+			}
+			// an operand directly followed by ( is a call in the real grammar: outside the model
+			call := false
+			for j := 1; j < len(toks); j++ {
+				if toks[j] == "(" && (toks[j-1] == ")" || (toks[j-1][0] == 'a' && len(toks[j-1]) == 2 && toks[j-1][1] <= '9')) {
+					call = true
+				}
+			}
+			if call {
+				continue
+			}
+			var src, enc []string
+			for _, t := range toks {
+				src = append(src, t)
+				switch {
+				case t == "(" || t == ")":
+					enc = append(enc, t)
+				case len(t) > 1 && t[0] == 'a' && t[1] >= '0' && t[1] <= '9':
+					enc = append(enc, t)
+				default:
+					enc = append(enc, "s"+Hx(t))
+				}
+			}
+			line := strings.Join(enc, " ")
+			if seen["tok|"+fmt.Sprint(g.tmpl)+line] {
+				continue
+			}
+			seen["tok|"+fmt.Sprint(g.tmpl)+line] = true
+			res := "syntax-error"
+			var e ast.Expression
+			var err error
+			if m := PanicText(func() { e, err = hook.ParseExpr([]byte(strings.Join(src, " ")), g.tmpl) }); m != "" {
+				res = "parser-panic"
+			} else if err == nil && e != nil {
+				a := &absExpr{index: map[string]int{}}
+				for k := 0; k < 5; k++ {
+					a.atom(fmt.Sprintf("a%d", k))
+				}
+				var b strings.Builder
+				if a.abstract(e, false, &b) {
+					res = "ok:" + strings.TrimSpace(b.String())
+				} else {
+					res = "other:" + Hx(e.String())
+				}
+			}
+			c.Line("c27tokens", line, res)
+			c.Count("cases")
+			c.Count("token_cases")
 		}
 		// operator expressions of the corpus
 		allInputs(c, c.N/10, func(in input) {
